@@ -1,5 +1,3 @@
-//go:build !vsreal
-
 // Package c13 (engine part): a real Manager, in client and in server role, is fed
 // every short sequence of hostile packets; nothing may panic, hang or leak.
 package c13
